@@ -11,7 +11,7 @@ def sh(cmd, cwd=None, timeout=1800):
 
 def main():
     src, name = sys.argv[1], sys.argv[2]
-    wt = '/tmp/seedchk'
+    wt = '/tmp/seedchk-' + name      # one scratch worktree per change: several confirmations can run side by side
     sh('git -C /repo worktree remove --force %s' % wt)
     shutil.rmtree(wt, ignore_errors=True)
     rc, out = sh('git -C /repo worktree add -q --detach %s HEAD' % wt)
